@@ -115,6 +115,26 @@ Definition it_hint (step : Z -> R (option Z * Z)) (hint : Z -> R (Z * option Z))
   : R (Z * option Z) :=
   let* v := it_drive step (Z.to_nat k) start in hint v.
 
+(** the provided adaptor [Iterator::nth] / [DoubleEndedIterator::nth_back] (neither iterator overrides
+    them): [for _ in 0..n { self.next()?; } self.next()].  [n : usize] can be huge, the loop ends at
+    the first [None]; the fuel bounds the number of steps the case generator asks for. *)
+Fixpoint it_nth (step : Z -> R (option Z * Z)) (fuel : nat) (n : Z) (v : Z) : R (option Z * Z) :=
+  match fuel with
+  | O => OutOfFuel
+  | S f =>
+    let* '(item, v') := step v in
+    if n <=? 0 then Val (item, v')
+    else match item with
+         | None => Val (None, v')
+         | Some _ => it_nth step f (n - 1) v'
+         end
+  end.
+Definition it_observe_nth (step : Z -> R (option Z * Z)) (start n cap : Z)
+  : R (option Z * (option Z * option Z)) :=
+  let* '(first, v) := it_nth step 4000 n start in
+  let* o := it_observe step v 0 cap in
+  Val (first, o).
+
 (** * Dispatcher *)
 Definition vo_date (o : option Z) : val := val_of_option enc_date o.
 Definition vo_ndt (o : option ndt) : val := val_of_option enc_ndt o.
@@ -163,6 +183,19 @@ Definition run_it (fwd back : Z -> R (option Z * Z)) (args : list val) : val :=
       | Some d, Some k, Some dir, Some cap =>
           val_of_R enc_obs (it_observe (if dir then fwd else back) d k cap)
       | _, _, _, _ => VBad
+      end
+  | _ => VBad
+  end.
+Definition run_nth (fwd back : Z -> R (option Z * Z)) (args : list val) : val :=
+  match args with
+  | [d; VInt n; dir; cap] =>
+      match dec_date d, arg_dir dir, arg_small cap with
+      | Some d, Some dir, Some cap =>
+          if in_u64 n then
+            val_of_R (fun '(first, (item, cnt)) => VTup [vo_date first; vo_date item; val_of_option VInt cnt])
+                     (it_observe_nth (if dir then fwd else back) d n cap)
+          else VBad
+      | _, _, _ => VBad
       end
   | _ => VBad
   end.
@@ -223,6 +256,8 @@ Definition run (op : bytes) (args : list val) : val :=
   (* iterators *)
   else if op_is op "it.days" then run_it days_next days_next_back args
   else if op_is op "it.weeks" then run_it weeks_next weeks_next_back args
+  else if op_is op "it.dnth" then run_nth days_next days_next_back args
+  else if op_is op "it.wnth" then run_nth weeks_next weeks_next_back args
   else if op_is op "it.dhint" then run_hint days_next days_next_back days_size_hint args
   else if op_is op "it.whint" then run_hint weeks_next weeks_next_back weeks_size_hint args
   else VErr B"NOOP".
